@@ -6,7 +6,9 @@ reference semantics = Spec/Py.lean, theorems = Properties/C08.lean):
   * package-level correspondence: the REAL `get_package_generator(...)`, `add_operation` per operation and
     `FragmentsGenerator.generate(exclude_names=_unpacked_fragments)` are run step by step in a forked child
     on seeded fragment graphs (chains, diamonds, fragments shared by several operations, fragments on
-    objects / interfaces / unions, fragments containing inline fragments, unused fragments) x placements of
+    objects / interfaces / unions, fragments containing inline fragments ("carriers": on the position's own type, on
+    an interface of it, on a union containing it), BASE fragments that spread carriers directly or through other
+    bases, spreads inside inline fragments on the own type / on an implemented interface, unused fragments) x placements of
     @mixin (field, fragment definition, operation) x shuffled definition orders.  Observed IR: per operation
     classes (bases, fields), mixin / unpacked sets, @mixin imports, names imported from the fragments module;
     the excluded set; the emitted fragments module (fragment order, classes in emitted order, rebuild calls,
@@ -92,6 +94,14 @@ DEFAULT_FEATURES: Dict[str, float] = {
     "spread_with_inline": 0.2,  # spread of a fragment on the abstract position's type that contains inline fragments
     "spread_iface_at_object": 0.15,  # fragment on an interface spread at an object position (unpacked)
     "spread_union_at_object": 0.08,  # fragment on a union spread at a member's position (unpacked)
+    # "carriers" = fragments that contain inline fragments (always unpacked).  A fragment that merely SPREADS a carrier has no
+    # inline fragment among its own top-level selections and stays a base class: the decision looks at the top level only.
+    "iface_carrier": 0.5,  # the interface fragment spread at an object position contains inline fragments
+    "spread_same_carrier": 0.12,  # object position / fragment on an object spreads a fragment on the SAME type made of inline fragments
+    "carrier_in_fragment": 0.6,  # the union / same-type carriers above also inside fragment definitions (bases that spread carriers)
+    "carrier_in_carrier": 0.15,  # a carrier on an abstract type spreads another carrier on the same type
+    "spread_in_super_inline": 0.4,  # `... on Iface { ...FragOnIface }` at an object position (the fragment is inherited)
+    "carrier_in_iface_base": 0.0,  # a base fragment on an INTERFACE spreads a carrier (sub-type classes appear: C08-F1/F4 region)
     "nested_spread": 0.45,  # fragments spreading fragments (chains)
     "reuse": 0.5,  # reuse an existing fragment instead of making a new one (sharing, diamonds)
     "reuse_conflicting": 0.0,  # reuse a fragment in a role that conflicts with an earlier use (finding C08-F1 region)
@@ -124,6 +134,14 @@ class FragGraphGen:
         self.mixin_n = 0
         self.mixin_classes: List[Tuple[str, str]] = []  # (module, class)
         self._frag_n = 0
+        self._na = 0  # > 0 while generating below a fragment that may become a base class (no abstract-typed fields: C01-F4)
+        # non-empty while generating what an ABSTRACT position reaches through top-level spreads (see foreign_inline): the object
+        # member types whose fragments are being spread there
+        self._plain: List[str] = []
+        # > 0 while generating a fragment on an INTERFACE that an OBJECT class will inherit (`... on Iface { ...F }`): the class of F
+        # is generated for the interface and silently drops F's member-typed inline fragments (C01-F5 "dropped selection"), so F
+        # must not reach inline fragments at all there
+        self._no_carrier = 0
         self._unions_of: Dict[str, List[str]] = {}
         for t in schema["types"]:
             if t["kind"] == "union":
@@ -181,16 +199,62 @@ class FragGraphGen:
     def has_inline(self, f: Dict[str, Any]) -> bool:
         return any(s["k"] == "inline" for s in f["sel"])
 
+    def foreign_inline(self, name: str, on: str, seen: Optional[Set[str]] = None) -> bool:
+        """does `name` reach, through top-level spreads, an inline fragment on a type other than `on`?  parse_operation_field
+        collects those (get_inline_fragments_from_selection_set follows spreads) as sub-type classes of an abstract position that
+        spreads `name`, whatever their type condition: classes for types the position cannot have (C01-F5 region, a valid
+        operation may be refused with ParsingError) - not generated here."""
+        seen = seen if seen is not None else set()
+        if name in seen:
+            return False
+        seen.add(name)
+        for s in self.frag(name)["sel"]:
+            if s["k"] == "inline" and s["on"] != on:
+                return True
+            if s["k"] == "spread" and self.foreign_inline(s["name"], on, seen):
+                return True
+        return False
+
+    def abstract_field_in(self, sel: List[Dict[str, Any]], type_name: str, seen: Set[str]) -> bool:
+        """an interface- / union-typed field anywhere below (through spreads and inline fragments)"""
+        for s in sel:
+            if s["k"] == "field" and s["sel"]:
+                fd = next((f for f in self.fields_of(type_name) if f["name"] == s["name"]), None)
+                base = schema_gen.unwrap(fd["type"]) if fd else None
+                if base is None or self.kind(base) in ("interface", "union") or self.abstract_field_in(s["sel"], base, seen):
+                    return True
+            elif s["k"] == "inline" and self.abstract_field_in(s["sel"], s["on"], seen):
+                return True
+            elif s["k"] == "spread" and s["name"] not in seen:
+                seen.add(s["name"])
+                g = self.frag(s["name"])
+                if self.abstract_field_in(g["sel"], g["on"], seen):
+                    return True
+        return False
+
     def mixins_of(self, name: str) -> Set[str]:
-        """fragments the class of `name` inherits directly when it is generated for its own type"""
+        """fragments the class of `name` inherits directly when it is generated for its own type (also those that reach it
+        through fragments / inline fragments that are unpacked into it)"""
         f = self.frag(name)
         out: Set[str] = set()
-        for s in f["sel"]:
+        self._collect_mixins(f["sel"], f["on"], out, {name})
+        return out
+
+    def _collect_mixins(self, sel: List[Dict[str, Any]], root: str, out: Set[str], seen: Set[str]) -> None:
+        for s in sel:
             if s["k"] == "spread":
                 g = self.frag(s["name"])
-                if g["on"] == f["on"] and not self.has_inline(g) and self.kind(g["on"]) != "union":
+                if g["on"] == root and not self.has_inline(g) and self.kind(g["on"]) != "union":
                     out.add(g["name"])
-        return out
+                elif g["name"] not in seen and (g["on"] == root or (self.kind(g["on"]) in ("interface", "union")
+                                                                     and root in schema_gen.possible_types(self.schema, g["on"]))):
+                    self._collect_mixins(g["sel"], root, out, seen | {g["name"]})
+            elif s["k"] == "inline":
+                on = s["on"]
+                if on == root:
+                    self._collect_mixins(s["sel"], root, out, seen)
+                elif self.kind(root) == "object" and on in self.tm[root]["interfaces"]:
+                    self._collect_mixins(s["sel"], on, out, seen)
 
     def ancestors(self, name: str) -> Set[str]:
         out: Set[str] = set()
@@ -207,7 +271,10 @@ class FragGraphGen:
                      avoid: Optional[Set[str]] = None) -> Optional[str]:
         """an existing fragment on `on` that fits (sharing), or a new one; `role` = how this use treats it"""
         avoid = avoid or set()
-        cands = [n for n in self.by_type.get(on, []) if n not in avoid and self.has_inline(self.frag(n)) == want_inline]
+        cands = [n for n in self.by_type.get(on, []) if n not in avoid and self.has_inline(self.frag(n)) == want_inline
+                 and not (self._plain and self.foreign_inline(n, self._plain[-1]))
+                 and not (self._no_carrier and self.foreign_inline(n, ""))
+                 and not (self._na and self.abstract_field_in(self.frag(n)["sel"], on, set()))]
         self.rng.shuffle(cands)
         if self.p("reuse"):
             for n in cands:
@@ -236,8 +303,9 @@ class FragGraphGen:
     def new_fragment(self, on: str, depth: int, scope: Set[str], want_inline: bool) -> Optional[str]:
         self._frag_n += 1
         name = self.rng.choice(["Frag", "part", "Bits", "fields", "Zed", "aa"]) + self.rng.choice(["A", "B", "_c", "Of", ""]) + str(self._frag_n)
-        no_abstract = not want_inline and self.kind(on) != "union"
-        sel = self.sel_set(on, depth, scope, in_fragment=True, allow_inline=want_inline, no_abstract=no_abstract)
+        no_abstract = (not want_inline and self.kind(on) != "union") or self._na > 0
+        sel = self.sel_set(on, depth, scope, in_fragment=True, allow_inline=want_inline, no_abstract=no_abstract,
+                           force_inline=want_inline)
         if not sel:
             return None
         if want_inline != any(s["k"] == "inline" for s in sel):
@@ -320,7 +388,15 @@ class FragGraphGen:
         return self.ancestors(a) & self.ancestors(b)
 
     def sel_set(self, type_name: str, depth: int, scope: Set[str], in_fragment: bool = False, allow_inline: bool = True,
-                no_abstract: bool = False) -> List[Dict[str, Any]]:
+                no_abstract: bool = False, force_inline: bool = False) -> List[Dict[str, Any]]:
+        self._na += 1 if no_abstract else 0
+        try:
+            return self._sel_set(type_name, depth, scope, in_fragment, allow_inline, no_abstract, force_inline)
+        finally:
+            self._na -= 1 if no_abstract else 0
+
+    def _sel_set(self, type_name: str, depth: int, scope: Set[str], in_fragment: bool, allow_inline: bool,
+                 no_abstract: bool, force_inline: bool) -> List[Dict[str, Any]]:
         kind = self.kind(type_name)
         used: Set[str] = set()
         sel: List[Dict[str, Any]] = []
@@ -344,7 +420,11 @@ class FragGraphGen:
                 elif r < self.f["inline_obj"] + self.f["spread_sub"] and not in_fragment:
                     # (inside a fragment that gets unpacked such a spread is dropped from the class and from the
                     # sent document: C01/C02 finding region, not generated here)
-                    fn = self.get_fragment(m, depth, scope, "mixin")
+                    self._plain.append(m)
+                    try:
+                        fn = self.get_fragment(m, depth, scope, "mixin")
+                    finally:
+                        self._plain.pop()
                     if fn:
                         sel.append(self.spread(fn))
                         has_subtype_classes = True
@@ -353,35 +433,100 @@ class FragGraphGen:
                 if fn:
                     sel.append(self.spread(fn))
                     has_subtype_classes = True
+            elif in_fragment and self.p("carrier_in_carrier"):
+                fn = self.get_fragment(type_name, max(depth - 1, 0), scope, "unpacked", want_inline=True)
+                if fn:
+                    sel.append(self.spread(fn))
+                    has_subtype_classes = True
         if kind in ("object", "interface"):
-            if self.p("inline_same") and allow_inline:
+            want_same = self.p("inline_same") and allow_inline
+            want_super = kind == "object" and allow_inline and self.p("inline_super") and not (self._plain and in_fragment)
+            if force_inline and kind == "object" and not (want_same or want_super):
+                # a carrier on an object type: its inline fragments are on the type itself or on one of its interfaces
+                if self.tm[type_name]["interfaces"] and self.rng.random() < 0.5 and not self._plain:
+                    want_super = True
+                else:
+                    want_same = True
+            if want_same:
                 sub = self.fields(type_name, depth, scope, used, no_abstract, at_least_one=False)
+                if sub and kind == "object" and self.p("spread_in_inline"):
+                    sub += self.mixin_spreads(type_name, depth, scope, in_fragment)
                 if sub:
                     sel.append({"k": "inline", "on": type_name, "dirs": [], "sel": sub})
                     has_subtype_classes = has_subtype_classes or kind == "interface"
-            if kind == "object" and allow_inline and self.p("inline_super"):
+            if want_super:
                 ifaces = self.tm[type_name]["interfaces"]
                 if ifaces:
                     i = self.rng.choice(ifaces)
                     sub = self.fields(i, 0, scope, used, no_abstract, at_least_one=False)
+                    if sub and self.p("spread_in_super_inline"):
+                        # evaluated for the interface: a fragment on the interface is INHERITED by the object's class
+                        self._no_carrier += 1
+                        try:
+                            sub += self.mixin_spreads(i, min(depth, 1), scope, in_fragment)
+                        finally:
+                            self._no_carrier -= 1
                     if sub:
                         sel.append({"k": "inline", "on": i, "dirs": [], "sel": sub})
+            inner = (not in_fragment) or self.p("carrier_in_fragment")
+            foreign = not (self._plain and in_fragment)  # carriers on other types than the position's own
             if kind == "object" and self.p("spread_iface_at_object"):
                 ifaces = self.tm[type_name]["interfaces"]
                 if ifaces:
-                    fn = self.get_fragment(self.rng.choice(ifaces), min(depth, 1), scope, "unpacked")
+                    carrier = self.p("iface_carrier") and foreign
+                    fn = self.get_fragment(self.rng.choice(ifaces), min(depth, 1), scope, "unpacked", want_inline=carrier)
                     if fn:
                         sel.append(self.spread(fn))
-            if kind == "object" and self._unions_of.get(type_name) and self.p("spread_union_at_object") and not in_fragment:
+            if kind == "object" and self._unions_of.get(type_name) and self.p("spread_union_at_object") and inner and foreign:
                 u = self.rng.choice(self._unions_of[type_name])
                 fn = self.get_fragment(u, min(depth, 1), scope, "unpacked", want_inline=True)
+                if fn:
+                    sel.append(self.spread(fn))
+            if kind == "object" and inner and self.p("spread_same_carrier"):
+                fn = self.get_fragment(type_name, min(max(depth - 1, 0), 1), scope, "unpacked", want_inline=True)
+                if fn:
+                    sel.append(self.spread(fn))
+            if (kind == "interface" and in_fragment and not allow_inline and not self._plain and not self._no_carrier
+                    and self.p("carrier_in_iface_base")):
+                fn = self.get_fragment(type_name, min(depth, 1), scope, "unpacked", want_inline=True)
                 if fn:
                     sel.append(self.spread(fn))
             # a qualifying spread at an interface position that also gets sub-type classes is unpacked into
             # those classes AND inherited by the interface class: finding C08-F1 within one operation
             if not (kind == "interface" and has_subtype_classes) or self.p("reuse_conflicting"):
                 sel += self.mixin_spreads(type_name, depth, scope, in_fragment)
-        return sel
+        return self.prune_mro_hazards(sel, type_name)
+
+    def prune_mro_hazards(self, sel: List[Dict[str, Any]], type_name: str) -> List[Dict[str, Any]]:
+        """The classes generated for one selection set collect their fragment bases from several places (top-level spreads,
+        inline fragments on the own type / on an interface, carriers unpacked into them).  A base together with one of its own
+        ancestors is the C08-F3 region (alphabetical base order CPython may not linearise): selections that would complete such
+        a pair are dropped here unless the region is asked for."""
+        if self.f["base_and_derived"] > 0:
+            return sel
+        roots = [type_name] + ([m for m in schema_gen.possible_types(self.schema, type_name) if m != type_name]
+                               if self.kind(type_name) in ("interface", "union") else [])
+        taken: Dict[str, Set[str]] = {r: set() for r in roots}
+        out: List[Dict[str, Any]] = []
+        for s in sel:
+            if s["k"] == "field":
+                out.append(s)
+                continue
+            ok = True
+            new: Dict[str, Set[str]] = {}
+            for r in roots:
+                got: Set[str] = set()
+                self._collect_mixins([s], r, got, set())
+                new[r] = got
+                both = taken[r] | got
+                if got - taken[r] and any(self.ancestors(a) & both for a in both):
+                    ok = False
+                    break
+            if ok:
+                out.append(s)
+                for r in roots:
+                    taken[r] |= new[r]
+        return out
 
     # ---- operations
     def gen_operation(self, name: str, kind: str) -> Optional[Dict[str, Any]]:
@@ -886,6 +1031,54 @@ def measure(res: Result, label: str, case: Dict[str, Any], impl: Dict[str, Any])
         res.count(f"{label}:fragment-inherited-by-2+-operations")
     if impl.get("excluded") or (impl.get("before") or {}).get("excluded"):
         res.count(f"{label}:some-fragment-unpacked")
+    # bases that spread carriers (fragments containing inline fragments): the unpack decision must look at the top level only
+    inherited = set(users)
+    for _, ds in (fr or {}).get("deps", []):
+        inherited |= set(ds)
+    for k in carrier_shapes(case, inherited):
+        res.count(f"{label}:{k}")
+
+
+def carrier_shapes(case: Dict[str, Any], inherited: Set[str]) -> Set[str]:
+    """which shapes around 'a fragment without top-level inline fragments spreads a fragment that has some' occur in the document"""
+    from graphql import FragmentDefinitionNode, FragmentSpreadNode, InlineFragmentNode, parse
+
+    try:
+        doc = parse(case["queries"])
+    except Exception:  # noqa: BLE001
+        return set()
+    unions = set(re.findall(r"(?m)^union (\w+)", case["sdl"]))
+    ifaces = set(re.findall(r"(?m)^interface (\w+)", case["sdl"]))
+    frags = {d.name.value: d for d in doc.definitions if isinstance(d, FragmentDefinitionNode)}
+    carrier = {n for n, d in frags.items() if any(isinstance(x, InlineFragmentNode) for x in d.selection_set.selections)}
+    spreads = {n: [x.name.value for x in d.selection_set.selections if isinstance(x, FragmentSpreadNode)] for n, d in frags.items()}
+    out: Set[str] = set()
+    direct: Set[str] = set()
+    for n, d in frags.items():
+        on = d.type_condition.name.value
+        if n in carrier or on in unions:
+            continue
+        for g in spreads[n]:
+            if g not in frags or g not in carrier:
+                continue
+            direct.add(n)
+            gon = frags[g].type_condition.name.value
+            kind = "same-type" if gon == on else ("union" if gon in unions else "interface")
+            out.add(f"base-fragment-spreads-{kind}-carrier")
+            if n in inherited:
+                out.add("inherited-fragment-spreads-carrier")
+            if on in ifaces:
+                out.add("interface-base-fragment-spreads-carrier")
+    for n in frags:
+        if n not in carrier and n not in direct and any(g in direct for g in spreads[n]):
+            out.add("base-fragment-reaches-carrier-through-another-base")
+            if n in inherited:
+                out.add("inherited-fragment-reaches-carrier-through-another-base")
+    for n in carrier:
+        for x in frags[n].selection_set.selections:
+            if isinstance(x, InlineFragmentNode) and any(isinstance(y, FragmentSpreadNode) for y in x.selection_set.selections):
+                out.add("carrier-with-spread-inside-inline-fragment")
+    return out
 
 
 # --------------------------------------------------------------------------------------------
@@ -1330,14 +1523,15 @@ def judge(ctx: Ctx, st: Optional[LeanStatus], res: Result, cases: List[Dict[str,
     oracle(ctx, res, [cases[i] for i in pick], [irs[i] for i in pick], label + ":oracle")
 
 
-REGION_FEATURES = {"reuse_conflicting": 0.35, "base_and_derived": 0.25, "abstract_in_mixin": 0.3, "mixin_operation": 0.4,
+REGION_FEATURES = {"carrier_in_iface_base": 0.3, "reuse_conflicting": 0.35, "base_and_derived": 0.25, "abstract_in_mixin": 0.3, "mixin_operation": 0.4,
                    "mixin_malformed": 0.03}
 
 
 def run(ctx: Ctx, st: Optional[LeanStatus]) -> Result:
     res = Result()
     res.rule = ("seeded fragment graphs over seeded schemas (chains, diamonds, fragments shared by operations, on objects/interfaces/unions, "
-                "with inline fragments, unused) x @mixin on fields / fragment definitions / operations x shuffled definition orders, all "
+                "with inline fragments, base fragments that spread such carriers (same type / interface / union; directly or through "
+                "another base), spreads inside inline fragments, unused) x @mixin on fields / fragment definitions / operations x shuffled definition orders, all "
                 "validated by graphql-core: (1) package IR of the real PackageGenerator/FragmentsGenerator vs the Lean driver incl. both "
                 "finding triggers; (2) Spec.Py (C3 MRO, subclass) vs CPython on the emitted class tables and on random tables; (3) the "
                 "property oracle on real imported packages driven through MockTransport. A package case is non-trivial when a fragments "
